@@ -240,7 +240,17 @@ def run(chk):
     for sched in ["batch", "round-robin", "random"]:
         for pos in range(3):
             for seed, f in ([(1, False), (1, True)] if sched != "random" else [(1, False), (2, True), (3, False), (4, True), (5, False)]):
-                specs = [RunSpec("B%d" % i, exe=("bad" if i % 2 == 0 else "good"), invocations=2) for i in range(5)]
+                # how the program a run starts is written in the configuration: plainly; with a placeholder in the executable
+                # (one executor, the suite decides the program); with an argument embedded in `executable` (two executors,
+                # one program).  "The same executable" is the program started: the first word of the expanded command line.
+                style = ["plain", "template", "args"][(pos + seed) % 3]
+                if style == "plain":
+                    specs = [RunSpec("B%d" % i, exe=("bad" if i % 2 == 0 else "good"), invocations=2) for i in range(5)]
+                elif style == "template":
+                    specs = [RunSpec("B%d" % i, exe="%(suite)s-vm", suite=("Sbad" if i % 2 == 0 else "Sgood"), invocations=2) for i in range(5)]
+                else:
+                    specs = [RunSpec("B%d" % i, exe=(("bad -a" if i % 4 == 0 else "bad -b") if i % 2 == 0 else "good"), invocations=2) for i in range(5)]
+                chk.count("group_abort_executable_" + style)
                 raw = raw_config(specs)
                 if os.path.exists(data_file):
                     os.remove(data_file)
@@ -257,7 +267,7 @@ def run(chk):
                 good = [s for s in ses.starts if s[0] in ("B1", "B3")]
                 chk.case(("g", sched, pos, seed, f))
                 ngroup += 1
-                case = dict(scheduler=sched, missing_after=pos, seed=seed, f=f, starts=ses.starts)
+                case = dict(scheduler=sched, missing_after=pos, seed=seed, f=f, starts=ses.starts, executable_written=style)
                 if len(bad_starts) != pos + 1:
                     chk.violation("C04 exit 127 abandons every run with the same executable", case,
                                   "%d starts of the group using the missing binary" % (pos + 1), bad_starts)
